@@ -247,3 +247,16 @@ mut("C06", "R06.1", "follow-solver-called-with-other-k", PA + "analysis/k_decisi
 mut("C06", "R06.2", "solver-reads-slot-directly", PA + "analysis/first.rs",
     "        let last_first_set = first_cache.get(k - 1, grammar_config).borrow().clone();",
     "        let last_first_set = first_cache.0[k - 1].borrow().clone();")
+# ---- C05 (thin: shape of the k search)
+mut("C05", "R05.3", "search-starts-at-two", PA + "analysis/k_decision.rs",
+    "        let mut current_k = 1;\n        loop {", "        let mut current_k = 2;\n        loop {")
+mut("C05", "R05.2", "follow-set-of-smaller-k", PA + "analysis/k_decision.rs",
+    "            let cached = follow_cache.get(current_k, grammar_config, first_cache);\n            if let Some(follow_set) = cached\n                .borrow()\n                .follow_set\n                .non_terminals\n                .get(nti.non_terminal_index(non_terminal))",
+    "            let cached = follow_cache.get(current_k - 1, grammar_config, first_cache);\n            if let Some(follow_set) = cached\n                .borrow()\n                .follow_set\n                .non_terminals\n                .get(nti.non_terminal_index(non_terminal))")
+mut("C05", "R05.4", "only-neighbours-compared", PA + "analysis/k_decision.rs",
+    "                        .all(|(j, t2)| i == j || t1.is_disjoint(t2))", "                        .all(|(j, t2)| i == j || *j != *i + 1 || t1.is_disjoint(t2))")
+mut("C05", "R05.5", "undecidable-non-terminal-defaults", PA + "analysis/k_decision.rs",
+    "                decidable(grammar_config, n, max_k, first_cache, follow_cache),\n            )\n        })\n        .try_fold",
+    "                Ok(decidable(grammar_config, n, max_k, first_cache, follow_cache).unwrap_or(max_k)),\n            )\n        })\n        .try_fold")
+mut("C05", "R05.1", "ok-without-test", PA + "analysis/k_decision.rs",
+    "                if concatenated_k_tuples.iter().all(|(i, t1)| {", "                if current_k == max_k || concatenated_k_tuples.iter().all(|(i, t1)| {")
